@@ -275,6 +275,54 @@ def self_name_cases(ctx, only=None):
                              "%r) with %d invariant evaluations (at least %d expected)" % (label, oname, o0, l0, o1, l1, n_inv, want_inv))
 
 
+def reserved_name_cases(ctx):
+    """`result` and `OLD` mean something to POSTconditions only: a callable that carries preconditions (or a class
+    invariant) and no postcondition may well have a parameter of that name, or receive such a keyword through **kwargs -
+    with satisfied contracts it behaves like the bare one."""
+    import icontract
+
+    for name in ("result", "OLD"):
+        for is_async in (False, True):
+            for shape in ("positional", "keyword", "through-**kwargs", "used-by-the-precondition", "method-of-invariant-class"):
+                log = []
+                params = "x, **kwargs" if shape == "through-**kwargs" else "x, %s=7" % name
+                src = "%sdef f(%s%s):\n    LOG.append(sorted(locals().items(), key=str))\n    return x\n" % (
+                    "async " if is_async else "", "self, " if shape.startswith("method") else "", params)
+                g = {"LOG": log}
+                exec(src, g)
+                bare = g["f"]
+                if shape == "used-by-the-precondition":
+                    pre = eval("lambda %s: %s == 5" % (name, name))
+                else:
+                    pre = lambda x: x > 0  # noqa
+                if shape.startswith("method"):
+                    K0 = type("K", (), {"f": bare})
+                    K1 = icontract.invariant(lambda self: True)(type("K", (), {"f": icontract.require(pre)(bare)}))
+                    twin, contracted = K0().f, K1().f
+                else:
+                    twin, contracted = bare, icontract.require(pre)(bare)
+                args, kwargs = (1,), {name: 5}
+                if shape == "positional":
+                    args, kwargs = (1, 5), {}
+                outs = []
+                for fn in (twin, contracted):
+                    del log[:]
+                    try:
+                        r = fn(*args, **kwargs)
+                        if is_async:
+                            r = RUN.drive(r)
+                        outs.append((("ret", r), [[(k, v) for k, v in l if k != "self"] for l in log]))
+                    except BaseException as e:  # noqa
+                        outs.append((("exc", type(e).__name__, str(e)[:120]), list(log)))
+                label = "%s%s with a parameter/keyword named %s (%s), preconditions only" % (
+                    "async " if is_async else "", "method" if shape.startswith("method") else "function", name, shape)
+                ctx.case(["reserved-name", name, is_async, shape], True, sample={"directed": label, "outcome": list(outs[1][0])})
+                ctx.count("directed:reserved-name-without-postcondition")
+                if outs[0] != outs[1]:
+                    ctx.fail("reserved-name-without-postcondition|%s|%s" % (name, shape.split("-")[0]), {"part": "reserved-name"},
+                             "%s: the bare callable gives %r, the contracted one %r" % (label, outs[0], outs[1]))
+
+
 def colour_cases(ctx):
     """Foreign functools.wraps decorators that change the colour of the callable (a sync adapter that runs an `async def`
     to completion, an async adapter around a `def`), with satisfied contracts above and/or below them: the stack with
@@ -553,9 +601,15 @@ def run(ctx, tier, seed, shard, nshards):
             ctx.count("directed:diamond-classes")
         colour_cases(ctx)
         self_name_cases(ctx)
+        reserved_name_cases(ctx)
 
 
 def replay(ctx, case):
+    if case.get("part") == "reserved-name":
+        before = ctx.evaluations
+        reserved_name_cases(ctx)
+        ctx.evaluations = before + 1
+        return
     if case.get("part") == "self-name":
         before = ctx.evaluations
         self_name_cases(ctx, only=case["directed"])
